@@ -59,6 +59,12 @@ type lockRec struct {
 	hashType uint8
 	keyMax   uint8
 	hashLock []byte
+	// what the CALL asked for beyond amount / owner (asked-effect monitor, C09): start time of a stake = frontier time of
+	// the receive; pillar: producer, reward address and percentages of the last confirmed Register / UpdatePillar
+	startT   int64
+	hasStart bool
+	reg      *definition.RegisterParam
+	ptype    uint8
 }
 
 type kParams struct {
@@ -484,7 +490,7 @@ func (r *contractRun) onMomentum(dm *nom.DetailedMomentum) {
 		if d.modelled {
 			c.Emit("K-call %s %s | %s", head, strings.Join(d.args, " "), outcome)
 		} else {
-			c.Emit("K-opaque %s %s", head, outcome)
+			c.Emit("K-opaque %s %s | ok", head, outcome)
 		}
 		if status == "1" && d.method == definition.UpdateMethodName {
 			switch b.Address {
@@ -637,7 +643,7 @@ func (r *contractRun) monitorReceive(b, send *nom.AccountBlock, d *decoded, stat
 			if ok {
 				key := lockKey(b.Address, "stake", addrName(send.Address), h8z(send.Hash))
 				r.locks[key] = &lockRec{contract: b.Address, kind: "stake", key: key, entitled: send.Address, tok: send.TokenStandard,
-					amount: new(big.Int).Set(send.Amount), matureT: ackT + d.dur}
+					amount: new(big.Int).Set(send.Amount), matureT: ackT + d.dur, startT: ackT, hasStart: true}
 				if len(b.DescendantBlocks) != 0 {
 					r.fail("release: Stake produced %d descendant blocks", len(b.DescendantBlocks))
 				}
@@ -910,7 +916,7 @@ func (r *contractRun) monitorReceive(b, send *nom.AccountBlock, d *decoded, stat
 			if ok {
 				key := lockKey(b.Address, "lstake", addrName(send.Address), h8z(send.Hash))
 				r.locks[key] = &lockRec{contract: b.Address, kind: "lstake", key: key, entitled: send.Address, tok: send.TokenStandard,
-					amount: new(big.Int).Set(send.Amount), matureT: ackT + d.dur}
+					amount: new(big.Int).Set(send.Amount), matureT: ackT + d.dur, startT: ackT, hasStart: true}
 				if len(b.DescendantBlocks) != 0 {
 					r.fail("release: LiquidityStake produced %d descendant blocks", len(b.DescendantBlocks))
 				}
@@ -986,7 +992,15 @@ func (r *contractRun) monitorReceive(b, send *nom.AccountBlock, d *decoded, stat
 				if old := r.locks[key]; old != nil {
 					r.fail("release: pillar name %s registered twice", d.name)
 				}
-				r.locks[key] = &lockRec{contract: b.Address, kind: "pillar", key: key, entitled: send.Address, tok: send.TokenStandard, amount: new(big.Int).Set(send.Amount), regT: ackT}
+				r.locks[key] = &lockRec{contract: b.Address, kind: "pillar", key: key, entitled: send.Address, tok: send.TokenStandard, amount: new(big.Int).Set(send.Amount), regT: ackT, reg: d.reg, ptype: definition.NormalPillarType}
+			}
+		case b.Address == types.PillarContract && d.method == definition.UpdatePillarMethodName:
+			// an applied UpdatePillar: from now on the entry must show the producer / reward address / percentages of THIS call
+			if ok && d.reg != nil {
+				if lk := r.locks[lockKey(b.Address, "pillar", d.name)]; lk != nil {
+					lk.reg = d.reg
+					r.c.Hit("asked-effect-pillar-update-logged")
+				}
 			}
 		case b.Address == types.PillarContract && d.method == definition.RevokeMethodName:
 			key := lockKey(b.Address, "pillar", d.name)
@@ -1126,6 +1140,17 @@ func (l *liab) add(t types.ZenonTokenStandard, x *big.Int) {
 
 var fusedGapGenesis map[types.Address]*big.Int
 
+
+// askedEffect (C09, "applies the call"): the entry READ BACK through the real definition.* getters must show, field by
+// field, what the confirmed call that created it asked for — owner, beneficiary, token, expiry / lock times, hash lock —
+// not merely some storage write. The expectation comes from the lock log, which is built from confirmed send blocks only.
+func (r *contractRun) askedEffect(what, key, field string, got, want interface{}) {
+	g, w := fmt.Sprint(got), fmt.Sprint(want)
+	if g != w {
+		r.fail("asked-effect: %s %s records %s = %s, the confirmed call asked for %s", what, key, field, g, w)
+	}
+}
+
 func (r *contractRun) compareState(h uint64) {
 	c := r.c
 	full := func(a types.Address) bool { return !r.dumped || r.touched[a] }
@@ -1172,6 +1197,13 @@ func (r *contractRun) compareState(h uint64) {
 			}
 			perBen[f.Beneficiary].Add(perBen[f.Beneficiary], f.Amount)
 			checkLock(lockKey(types.PlasmaContract, "fusion", addrName(f.Owner), h8z(f.Id)), f.Amount, "fusion")
+			if k := lockKey(types.PlasmaContract, "fusion", addrName(f.Owner), h8z(f.Id)); r.locks[k] != nil {
+				lk := r.locks[k]
+				r.askedEffect("fusion", k, "beneficiary", addrName(f.Beneficiary), addrName(lk.second))
+				r.askedEffect("fusion", k, "expiration height", f.ExpirationHeight, lk.matureH)
+				r.askedEffect("fusion", k, "owner", addrName(f.Owner), addrName(lk.entitled))
+				c.Hit("asked-effect-checked-fusion")
+			}
 		}
 		fa, err := definition.AllFusedAmountVerif(st)
 		if err != nil {
@@ -1260,6 +1292,18 @@ func (r *contractRun) compareState(h uint64) {
 			owed[types.StakeContract].add(types.ZnnTokenStandard, s.Amount)
 			total.Add(total, s.Amount)
 			checkLock(lockKey(types.StakeContract, "stake", addrName(s.StakeAddress), h8z(s.Id)), s.Amount, "stake")
+			if k := lockKey(types.StakeContract, "stake", addrName(s.StakeAddress), h8z(s.Id)); r.locks[k] != nil {
+				lk := r.locks[k]
+				r.askedEffect("stake", k, "expiration time", s.ExpirationTime, lk.matureT)
+				if lk.hasStart {
+					r.askedEffect("stake", k, "start time", s.StartTime, lk.startT)
+				}
+				r.askedEffect("stake", k, "stake address", addrName(s.StakeAddress), addrName(lk.entitled))
+				if lk.paidAt == 0 {
+					r.askedEffect("stake", k, "revoke time", s.RevokeTime, 0)
+				}
+				c.Hit("asked-effect-checked-stake")
+			}
 			if (s.RevokeTime != 0) != (s.Amount.Sign() == 0) {
 				r.fail("storage: stake %s/%s has revoke time %d and amount %s", addrName(s.StakeAddress), h8z(s.Id), s.RevokeTime, amt(s.Amount))
 			}
@@ -1283,6 +1327,17 @@ func (r *contractRun) compareState(h uint64) {
 			r.tokens[e.TokenStandard] = true
 			owed[types.HtlcContract].add(e.TokenStandard, e.Amount)
 			checkLock(lockKey(types.HtlcContract, "htlc", h8z(e.Id)), e.Amount, "htlc")
+			if k := lockKey(types.HtlcContract, "htlc", h8z(e.Id)); r.locks[k] != nil {
+				lk := r.locks[k]
+				r.askedEffect("htlc", k, "time-locked party", addrName(e.TimeLocked), addrName(lk.entitled))
+				r.askedEffect("htlc", k, "hash-locked party", addrName(e.HashLocked), addrName(lk.second))
+				r.askedEffect("htlc", k, "token", tokName(e.TokenStandard), tokName(lk.tok))
+				r.askedEffect("htlc", k, "expiration time", e.ExpirationTime, lk.matureT)
+				r.askedEffect("htlc", k, "hash type", e.HashType, lk.hashType)
+				r.askedEffect("htlc", k, "key max size", e.KeyMaxSize, lk.keyMax)
+				r.askedEffect("htlc", k, "hash lock", hxOrDash(e.HashLock), hxOrDash(lk.hashLock))
+				c.Hit("asked-effect-checked-htlc")
+			}
 		}
 		pl, err := definition.AllHtlcProxyUnlockInfoVerif(st)
 		if err != nil {
@@ -1344,6 +1399,20 @@ func (r *contractRun) compareState(h uint64) {
 			owed[types.PillarContract].add(types.ZnnTokenStandard, e.Amount)
 			total.Add(total, e.Amount)
 			checkLock(lockKey(types.PillarContract, "pillar", e.Name), e.Amount, "pillar")
+			if k := lockKey(types.PillarContract, "pillar", e.Name); r.locks[k] != nil {
+				lk := r.locks[k]
+				r.askedEffect("pillar", k, "stake address", addrName(e.StakeAddress), addrName(lk.entitled))
+				r.askedEffect("pillar", k, "registration time", e.RegistrationTime, lk.regT)
+				if lk.reg != nil {
+					r.askedEffect("pillar", k, "producer address", addrName(e.BlockProducingAddress), addrName(lk.reg.ProducerAddress))
+					r.askedEffect("pillar", k, "reward address", addrName(e.RewardWithdrawAddress), addrName(lk.reg.RewardAddress))
+					r.askedEffect("pillar", k, "block reward percentage", e.GiveBlockRewardPercentage, lk.reg.GiveBlockRewardPercentage)
+					r.askedEffect("pillar", k, "delegate reward percentage", e.GiveDelegateRewardPercentage, lk.reg.GiveDelegateRewardPercentage)
+					r.askedEffect("pillar", k, "pillar type", e.PillarType, lk.ptype)
+					c.Hit("asked-effect-checked-pillar-registered-in-history")
+				}
+				c.Hit("asked-effect-checked-pillar")
+			}
 			if (e.RevokeTime != 0) != (e.Amount.Sign() == 0) {
 				r.fail("storage: pillar %s has revoke time %d and amount %s", e.Name, e.RevokeTime, amt(e.Amount))
 			}
@@ -1386,6 +1455,14 @@ func (r *contractRun) compareState(h uint64) {
 			tq.Add(tq, e.QsrAmount)
 			checkLock(lockKey(types.SentinelContract, "sentinel-znn", addrName(e.Owner)), e.ZnnAmount, "sentinel collateral (ZNN)")
 			checkLock(lockKey(types.SentinelContract, "sentinel-qsr", addrName(e.Owner)), e.QsrAmount, "sentinel collateral (QSR)")
+			if k := lockKey(types.SentinelContract, "sentinel-znn", addrName(e.Owner)); r.locks[k] != nil {
+				lk := r.locks[k]
+				r.askedEffect("sentinel", k, "registration time", e.RegistrationTimestamp, lk.regT)
+				if lk.paidAt == 0 {
+					r.askedEffect("sentinel", k, "revoke time", e.RevokeTimestamp, 0)
+				}
+				c.Hit("asked-effect-checked-sentinel")
+			}
 		}
 		c.Emit("K-digest sentinel | %d %s %s", len(sl), amt(tz), amt(tq))
 		dumpQsr(types.SentinelContract)
@@ -1421,6 +1498,15 @@ func (r *contractRun) compareState(h uint64) {
 			owed[types.LiquidityContract].add(e.TokenStandard, e.Amount)
 			total.Add(total, e.Amount)
 			checkLock(lockKey(types.LiquidityContract, "lstake", addrName(e.StakeAddress), h8z(e.Id)), e.Amount, "liquidity stake")
+			if k := lockKey(types.LiquidityContract, "lstake", addrName(e.StakeAddress), h8z(e.Id)); r.locks[k] != nil {
+				lk := r.locks[k]
+				r.askedEffect("liquidity stake", k, "token", tokName(e.TokenStandard), tokName(lk.tok))
+				r.askedEffect("liquidity stake", k, "expiration time", e.ExpirationTime, lk.matureT)
+				if lk.hasStart {
+					r.askedEffect("liquidity stake", k, "start time", e.StartTime, lk.startT)
+				}
+				c.Hit("asked-effect-checked-lstake")
+			}
 		}
 		c.Emit("K-digest liquidity | %d %s", len(ll), amt(total))
 	}
@@ -1658,7 +1744,7 @@ func contractHistory(c *Ctx, id int) {
 		c.Emit("K-init-pillar %s %s %s %d %d %s %s %d %d %d", e.Name, addrName(e.StakeAddress), amt(e.Amount), e.RegistrationTime, e.RevokeTime, addrName(e.BlockProducingAddress),
 			addrName(e.RewardWithdrawAddress), e.PillarType, e.GiveBlockRewardPercentage, e.GiveDelegateRewardPercentage)
 		key := lockKey(types.PillarContract, "pillar", e.Name)
-		r.locks[key] = &lockRec{contract: types.PillarContract, kind: "pillar", key: key, entitled: e.StakeAddress, tok: types.ZnnTokenStandard, amount: new(big.Int).Set(e.Amount), regT: e.RegistrationTime}
+		r.locks[key] = &lockRec{contract: types.PillarContract, kind: "pillar", key: key, entitled: e.StakeAddress, tok: types.ZnnTokenStandard, amount: new(big.Int).Set(e.Amount), regT: e.RegistrationTime, ptype: e.PillarType}
 	}
 	gd, err := definition.GetDelegationsList(r.storage(types.PillarContract))
 	if err != nil {
